@@ -29,8 +29,12 @@
 //!   CRD <plan>    the stage-3 driver loop on the CURRENT SyslineReader; plan = string of 0/1 (cyclic,
 //!                 `-` = never): whether the i-th drop_data_try opportunity runs drop_data(bo_first-2)
 //!                 -> CRD OK <sc> <n> <beg,end,nlines,dt,hex>...
-//!   K <kind>      plain | gz | bz2 | lz4: the container of the files written by the following F commands
+//!   CRW <a>,<b>,<plan>  the same loop with the datetime window: SyslineReader::find_sysline_between_datetime_filters
+//!                 (a streamed file: find_sysline_at_datetime_filter_linear_search) instead of find_sysline;
+//!                 a, b = unix seconds or `-` (no bound)          -> CRW OK <sc> <n> <beg,end,nlines,dt,hex>...
+//!   K <kind>      plain | gz | bz2 | lz4 | xz | tar: the container of the files written by the following F commands
 //!                 (F then receives the bytes of the STORED form; the readers are opened with that FileType)
+//!   M <path>      the member path inside the archive for kind tar (before F)
 //!   T <hex>       the timestamp oracle on arbitrary bytes: a fresh SyslineReader on a file holding
 //!                 exactly these bytes, find_sysline(0)             -> T <dt seconds> | T None
 //!   lc = lines,stored_highest,hits,miss,lru_hit,lru_miss,lru_put,drop_ok,drop_errors
@@ -62,6 +66,8 @@ fn ft() -> FileType {
         1 => FileTypeArchive::Gz,
         2 => FileTypeArchive::Bz2,
         3 => FileTypeArchive::Lz4,
+        4 => FileTypeArchive::Xz,
+        5 => FileTypeArchive::Tar,
         _ => FileTypeArchive::Normal,
     };
     FileType::Text { archival_type: a, encoding_type: FileTypeTextEncoding::Utf8Ascii }
@@ -72,6 +78,8 @@ fn ext() -> &'static str {
         1 => ".gz",
         2 => ".bz2",
         3 => ".lz4",
+        4 => ".xz",
+        5 => ".tar",
         _ => "",
     }
 }
@@ -352,6 +360,67 @@ fn cached_driver(slr: &mut SyslineReader, plan: &[bool]) -> String {
     format!("CRD\tOK\t{}\t{}\t{}", sc(slr), items.len(), items.join("\t"))
 }
 
+/// stages 2 and 3 of exec_syslogprocessor with the datetime window on the given reader
+fn cached_window_driver(slr: &mut SyslineReader, spec: &str) -> String {
+    use chrono::TimeZone;
+    let mut it = spec.split(',');
+    let bound = |s: &str| -> Option<chrono::DateTime<chrono::FixedOffset>> {
+        match s.parse::<i64>() {
+            Ok(v) => tz().timestamp_opt(v, 0).single(),
+            Err(_) => None,
+        }
+    };
+    let after = bound(it.next().unwrap_or("-"));
+    let before = bound(it.next().unwrap_or("-"));
+    let plan: Vec<bool> = it.next().unwrap_or("").chars().filter(|c| *c == '0' || *c == '1').map(|c| c == '1').collect();
+    let mut items: Vec<String> = Vec::new();
+    let mut fo1: FileOffset;
+    match slr.find_sysline_between_datetime_filters(0, &after, &before) {
+        ResultS3::Found((fo, syslinep)) => {
+            fo1 = fo;
+            let is_last = slr.is_sysline_last(&syslinep);
+            items.push(sysline_item(&syslinep));
+            if is_last {
+                return format!("CRW\tOK\t{}\t{}\t{}", sc(slr), items.len(), items.join("\t"));
+            }
+        }
+        ResultS3::Done => return format!("CRW\tOK\t{}\t0\t", sc(slr)),
+        ResultS3::Err(_) => return "CRW\tErr".to_string(),
+    }
+    let mut syslinep_last_opt: Option<SyslineP> = None;
+    let mut i: usize = 0;
+    loop {
+        match slr.find_sysline_between_datetime_filters(fo1, &after, &before) {
+            ResultS3::Found((fo, syslinep)) => {
+                let syslinep_tmp = syslinep.clone();
+                let is_last = slr.is_sysline_last(&syslinep);
+                items.push(sysline_item(&syslinep));
+                fo1 = fo;
+                if is_last {
+                    break;
+                }
+                if let Some(syslinep_last) = syslinep_last_opt {
+                    let run = !plan.is_empty() && plan[i % plan.len()];
+                    i += 1;
+                    if run {
+                        let bo_first = (*syslinep_last).blockoffset_first();
+                        if bo_first > 1 {
+                            slr.drop_data(bo_first - 2);
+                        }
+                    }
+                }
+                syslinep_last_opt = Some(syslinep_tmp);
+            }
+            ResultS3::Done => break,
+            ResultS3::Err(_) => return "CRW\tErr".to_string(),
+        }
+        if items.len() > 1_000_000 {
+            return "CRW\tLOOP".to_string();
+        }
+    }
+    format!("CRW\tOK\t{}\t{}\t{}", sc(slr), items.len(), items.join("\t"))
+}
+
 fn main() {
     let dir = std::env::args().nth(1).expect("usage: c02 <scratch dir>");
     std::panic::set_hook(Box::new(|_| {}));
@@ -360,6 +429,7 @@ fn main() {
     let mut bs: u64 = 0;
     let mut lr: Option<LineReader> = None;
     let mut slr: Option<SyslineReader> = None;
+    let mut member: String = String::new();
     for line in stdin_lines() {
         let mut it = line.split('\t');
         let cmd = it.next().unwrap_or("");
@@ -371,13 +441,23 @@ fn main() {
                 nfile += 1;
                 path = format!("{}/c{:06}.log{}", dir, nfile % 64, ext());
                 std::fs::write(&path, unhex(arg)).expect("write");
+                if KIND.load(std::sync::atomic::Ordering::Relaxed) == 5 {
+                    // a tar member: <archive>|<member path> (command M before F)
+                    path = format!("{}|{}", path, member);
+                }
                 println!("F\tOK");
+            }
+            "M" => {
+                member = arg.to_string();
+                println!("M\tOK");
             }
             "K" => {
                 let k = match arg {
                     "gz" => 1,
                     "bz2" => 2,
                     "lz4" => 3,
+                    "xz" => 4,
+                    "tar" => 5,
                     _ => 0,
                 };
                 KIND.store(k, std::sync::atomic::Ordering::Relaxed);
@@ -499,7 +579,7 @@ fn main() {
                 }
                 println!("{}", out);
             }
-            "CS" | "CSB" | "CSE" | "CDD" | "CDS" | "CRD" | "CXD" => {
+            "CS" | "CSB" | "CSE" | "CDD" | "CDS" | "CRD" | "CRW" | "CXD" => {
                 let out = match slr.as_mut() {
                     None => format!("{}\tNoReader", cmd),
                     Some(r) => {
@@ -544,6 +624,7 @@ fn main() {
                                 r.drop_sysline(&fo);
                                 format!("CDS\tOK\t{}", sc(r))
                             }
+                            "CRW" => cached_window_driver(r, arg),
                             _ => {
                                 let plan: Vec<bool> = arg.chars().filter(|c| *c == '0' || *c == '1').map(|c| c == '1').collect();
                                 cached_driver(r, &plan)
